@@ -20,7 +20,7 @@ run_one() {
   git -C $wt checkout -q -- . ; git -C $wt clean -qfd -e target
   cp /repo/Cargo.lock $wt/Cargo.lock
   if ! git -C $wt apply $PWD/$name/patch.diff 2>/dev/null; then echo -e "$(basename $name)\t$id\tpatch-does-not-apply\t\t" ; return; fi
-  out=$(VERIF_REPO=$wt ./check $id --tier quick 2>&1); rc=$?
+  out=$(VERIF_EVIDENCE_DIR=$PWD/work/evidence-mutants VERIF_REPO=$wt ./check $id --tier quick 2>&1); rc=$?
   sig=$(echo "$out" | grep -E "^signature:" | head -n1 | sed 's/^signature: //' | cut -c1-160)
   last=$(echo "$out" | tail -n1 | cut -c1-200)
   python3 - "$name" "$id" "$rc" "$sig" "$last" <<'PY'
